@@ -34,15 +34,19 @@ size_t verif_b_size;                 /* ghost: B's domain is [0, verif_b_size) *
 #define VERIF_B_DOMAIN(x) ((x) < verif_b_size)
 #define VERIF_B_VALUE(x) verif_b_result
 
-/* representation invariant of a Morton view over array-like storage, with ghost exponent k:
- * every extent is in [1, 2^k], k*N <= 63, and the storage has exactly 2^(k N) cells
- * (lemma h_morton_alloc shows the two allocation-size expressions of morton.hpp establish it) */
+/* Representation invariant of a Morton view over array-like storage, stated as the property states it (C18):
+ * "the storage has more cells than the largest curve position of any in-range coordinate".  Interleaving is
+ * monotone in every coordinate (lemma h_morton_monotone), so the largest position is that of the far corner
+ * (sizes - 1); the ghost verif_ghost_m is that position.  Every extent is in [1, 2^floor(64/N)]. */
+size_t verif_ghost_m;             /* ghost: Morton position of the far corner */
+#define MORTON_EXT_DOM_K(k, sizes) ((sizes).m_data[k] >= 1 && (MORTON_BITS >= 64 || (sizes).m_data[k] <= ((uint64_t)1 << (MORTON_BITS % 64))))
+#define MORTON_FAR_BIT(sizes, q) ((q) < DIMS_IN * MORTON_BITS ? ((((uint64_t)(sizes).m_data[(q) % DIMS_IN] - 1) >> ((q) / DIMS_IN)) & 1) : (uint64_t)0)
+#define MORTON_FAR_IS(m, sizes, vq) __CPROVER_forall { unsigned vq; (vq < 64) ==> ((((uint64_t)(m)) >> vq) & 1) == MORTON_FAR_BIT(sizes, vq) }
 #define MORTON_EXTENT_OK_K(k, sizes) ((sizes).m_data[k] >= 1 && (sizes).m_data[k] <= ((size_t)1 << verif_ghost_k))
 #define MORTON_EXTENT_BIG_K(k, sizes) ((sizes).m_data[k] > ((size_t)1 << (verif_ghost_k - 1)))
 #define MORTON_C_IN_RANGE_K(k, self, c) ((c).m_data[k] >= 0 && (uint64_t)(c).m_data[k] < (self)->m_sizes.m_data[k])
 #define MORTON_INV(sizes) \
-  (verif_ghost_k <= 63 / DIMS_IN && verif_b_size == ((size_t)1 << (verif_ghost_k * DIMS_IN)) && \
-   VERIF_ALL(DIMS_IN, MORTON_EXTENT_OK_K, sizes))
+  (VERIF_ALL(DIMS_IN, MORTON_EXT_DOM_K, sizes) && MORTON_FAR_IS(verif_ghost_m, sizes, vqf) && verif_b_size > verif_ghost_m)
 
 #define CONTRACT_morton_at(self, c) \
   __CPROVER_requires(MORTON_INV((self)->m_sizes)) \
@@ -53,16 +57,18 @@ size_t verif_b_size;                 /* ghost: B's domain is [0, verif_b_size) *
   __CPROVER_ensures(__CPROVER_return_value == verif_b_result) \
   __CPROVER_assigns(VERIF_B_GHOSTS)
 
-/* allocation-size expressions: with ghost k = ceil(log2(max extent)) the storage length is 2^(k N) */
+/* allocation-size expressions: on the domain where the cell count is representable (ghost k = ceil(log2(max extent)),
+ * k N <= 63) the result exceeds the position of the far corner -- NOT "equals 2^(k N)": a tighter correct allocation
+ * must not raise an alarm */
 #define MORTON_SIZES_OK(sizes) \
   (verif_ghost_k <= 63 / DIMS_IN && \
    VERIF_ALL(DIMS_IN, MORTON_EXTENT_OK_K, sizes) && \
    (verif_ghost_k == 0 || VERIF_ANY(DIMS_IN, MORTON_EXTENT_BIG_K, sizes)))
 #define CONTRACT_morton_alloc_size_copy(sizes) \
-  __CPROVER_requires(MORTON_SIZES_OK(sizes)) \
-  __CPROVER_ensures(__CPROVER_return_value == ((size_t)1 << (verif_ghost_k * DIMS_IN))) \
+  __CPROVER_requires(MORTON_SIZES_OK(sizes) && MORTON_FAR_IS(verif_ghost_m, sizes, vqa)) \
+  __CPROVER_ensures(__CPROVER_return_value > verif_ghost_m)   /* C18: more cells than the largest curve position */ \
   __CPROVER_assigns()
 #define CONTRACT_morton_alloc_size_ctor(m_sizes) \
-  __CPROVER_requires(MORTON_SIZES_OK(m_sizes)) \
-  __CPROVER_ensures(__CPROVER_return_value == ((size_t)1 << (verif_ghost_k * DIMS_IN))) \
+  __CPROVER_requires(MORTON_SIZES_OK(m_sizes) && MORTON_FAR_IS(verif_ghost_m, m_sizes, vqb)) \
+  __CPROVER_ensures(__CPROVER_return_value > verif_ghost_m) \
   __CPROVER_assigns()
